@@ -530,7 +530,7 @@ const FRAGMENTS: &[&[u8]] = &[
     b"<noframes>", b"<a b=c d='e' f=\"g\" h>", b"<a b=c>", b" d='e'", b" f=\"g\"", b" h", b"<SCRIPT>", b"</SCRIPT>", b"<TITLE>", b"</Title>",
     b"<TextArea>", b"<PLAINTEXT>", b"<!DocType", b"<A B=C>", b"</A>", b"\x00", b"<br/>", b"<p/ >", b"</p>", b"</ p>", b"--!>", b"<script", b"</scrip",
     b"</script ", b"</script/", b"<!", b"<?", b"<?xml?>", b"</>", b"< ", b"<<", b"<</title>", b"\xc3\x89", b"<a\xc3\x89 \xc3\x89=\xc3\x89>", b"</\xc3\x89>",
-    b"<b\xc4\xb0>", b"<a href=/\xc3\xa0-propos>", b" t=\xc3\x85", b" u=\xe2\x80\xa0 ", b"</\xe2\x82\xac", b"</ti\xf0\x9f\x98\x80", b"</\xe9", b" x = \"y\"", b"='", b"=\"", b"= >", b"\t", b"\n", b"\x0c", b"\r", b"<!-", b"<!>", b"<!-->", b"<!--->", b"<![cdata[", b"<![CDATA",
+    b"<b\xc4\xb0>", b"<title></title>", b"<script src=x></script>", b"<textarea></textarea>", b"<style></style>", b"<a href=/\xc3\xa0-propos>", b" t=\xc3\x85", b" u=\xe2\x80\xa0 ", b"</\xe2\x82\xac", b"</ti\xf0\x9f\x98\x80", b"</\xe9", b" x = \"y\"", b"='", b"=\"", b"= >", b"\t", b"\n", b"\x0c", b"\r", b"<!-", b"<!>", b"<!-->", b"<!--->", b"<![cdata[", b"<![CDATA",
 ];
 
 const SCRIPT_FRAGMENTS: &[&[u8]] = &[
